@@ -6,6 +6,7 @@ import (
 	"crypto/elliptic"
 	crand "crypto/rand"
 	"errors"
+	"fmt"
 	"io"
 	"math/big"
 
@@ -48,14 +49,21 @@ type failingReader struct {
 	pos    int
 	ci     int
 	calls  int
+	fail   error // what the source reports once it is exhausted (errEntropy when nil)
+	// withLast: the failure is reported together with the last bytes delivered (as io.Reader permits)
+	withLast bool
 }
 
 var errEntropy = errors.New("entropy source failed")
 
 func (r *failingReader) Read(p []byte) (int, error) {
 	r.calls++
+	fail := r.fail
+	if fail == nil {
+		fail = errEntropy
+	}
 	if r.pos >= len(r.data) {
-		return 0, errEntropy
+		return 0, fail
 	}
 	n := len(r.data) - r.pos
 	if len(r.chunks) > 0 {
@@ -69,8 +77,18 @@ func (r *failingReader) Read(p []byte) (int, error) {
 	}
 	copy(p, r.data[r.pos:r.pos+n])
 	r.pos += n
+	if r.withLast && r.pos >= len(r.data) {
+		return n, fail
+	}
 	return n, nil
 }
+
+// the ways an entropy source ends: its own error, a clean io.EOF (a finite seed: bytes.Reader, an exhausted stream),
+// io.ErrUnexpectedEOF, a wrapped EOF; each also reported together with the last bytes
+var entropyEndings = []struct {
+	err      error
+	withLast bool
+}{{nil, false}, {io.EOF, false}, {io.ErrUnexpectedEOF, false}, {fmt.Errorf("seed: %w", io.EOF), false}, {io.EOF, true}, {nil, true}}
 
 var _ io.Reader = (*failingReader)(nil)
 
@@ -310,7 +328,11 @@ func runC13Curve(c *h.Ctx, cv curveT) {
 		for _, ch := range chunkings {
 			data := rnd(c, avail)
 			script := [][]byte{{cv.id}}
-			fr := &failingReader{data: data, chunks: ch}
+			ending := entropyEndings[(avail+len(ch))%len(entropyEndings)]
+			if avail == 0 || avail == need || avail == need-1 {
+				ending = entropyEndings[(len(ch)+avail/need)%2] // own error and clean EOF at the edges, every chunking
+			}
+			fr := &failingReader{data: data, chunks: ch, fail: ending.err, withLast: ending.withLast}
 			for pos := 0; pos < avail; {
 				n := avail - pos
 				if len(ch) > 0 {
@@ -337,7 +359,7 @@ func runC13Curve(c *h.Ctx, cv curveT) {
 			}
 			c.Case(name+":entropy:GenerateKey", true, "ecdsa_keygen_entropy", script, [][]byte{st, got})
 			if (avail < need) != (err != nil) || (err != nil && k != nil) {
-				c.Violation("GenerateKey returns an error and no key exactly when the entropy source fails before the required bytes", map[string]any{"curve": name, "available": avail, "needed": need, "chunks": ch, "err": err != nil})
+				c.Violation("GenerateKey returns an error and no key exactly when the entropy source fails before the required bytes", map[string]any{"curve": name, "available": avail, "needed": need, "chunks": ch, "err": err != nil, "source_ends_with": fmt.Sprint(ending.err), "with_last_bytes": ending.withLast})
 			}
 			if err == nil && k != nil {
 				// the key is the [NSA] A.2.1 value of the bytes read
@@ -354,7 +376,13 @@ func runC13Curve(c *h.Ctx, cv curveT) {
 	for avail := 0; avail <= 36; avail++ {
 		for _, ch := range chunkings {
 			data := rnd(c, avail)
-			mk := func() *failingReader { return &failingReader{data: data, chunks: ch} }
+			ending := entropyEndings[(avail+len(ch))%len(entropyEndings)]
+			if avail == 0 || avail == 32 || avail == 31 {
+				ending = entropyEndings[(len(ch)+avail/32)%2]
+			}
+			mk := func() *failingReader {
+				return &failingReader{data: data, chunks: ch, fail: ending.err, withLast: ending.withLast}
+			}
 			type res struct {
 				name string
 				err  error
@@ -371,7 +399,7 @@ func runC13Curve(c *h.Ctx, cv curveT) {
 			rs = append(rs, res{"BlindKeySign", err, r == nil && s == nil})
 			c.Count(name+":entropy:sign", len(rs), "")
 			for _, x := range rs {
-				det := map[string]any{"curve": name, "op": x.name, "available": avail, "chunks": ch, "err": x.err != nil}
+				det := map[string]any{"curve": name, "op": x.name, "available": avail, "chunks": ch, "err": x.err != nil, "source_ends_with": fmt.Sprint(ending.err), "with_last_bytes": ending.withLast}
 				if avail < 32 && (x.err == nil || !x.nilR) {
 					c.Violation("signing returns an error and no signature when the entropy source fails before 32 bytes were read", det)
 				}
